@@ -40,3 +40,32 @@ func TestVerif_Smoke(t *testing.T) {
 		t.Logf("[%s] ok: userinfo=%s cookies=%d", store, r2.Body, len(b.Jar.All()))
 	}
 }
+
+func TestVerif_SmokeRedisFront(t *testing.T) {
+	w := vfNewWorld(t)
+	defer w.Close()
+	hub := vfNewRedisHub(w.Redis())
+	defer hub.Close()
+	f := hub.Front(0)
+	p := w.MustProxy("--session-store-type=redis", "--redis-connection-url="+f.URL("max_retries=0"), "--cookie-refresh=1m", "--cookie-expire=1h")
+	b := vfNewBrowser("")
+	if _, _, err := b.Login(p, vfStdIdentity, "/"); err != nil {
+		t.Fatal(err)
+	}
+	if r := b.Get(p, "/x"); r.Code != 200 {
+		t.Fatalf("status %d", r.Code)
+	}
+	for _, c := range hub.Log() {
+		t.Logf("%d inst=%d op=%-8s %v -> %s", c.Seq, c.Inst, c.Op, c.Args, c.Reply)
+	}
+	n := 0
+	hub.SetHooks(func(c *vfRedisCmd) vfRedisDecision {
+		if c.Op == "GET" {
+			n++
+			return vfRedisDecision{Fault: &vfRedisFault{Kind: "truncate", N: 5}}
+		}
+		return vfRedisDecision{}
+	}, nil)
+	r := b.Get(p, "/x")
+	t.Logf("truncated GET: status=%d panic=%q", r.Code, r.Panic)
+}
